@@ -28,6 +28,10 @@ def generate(rng: random.Random, tier: str):
         n_rec = rng.choice([3, 4, 4, 5, 6])
         cases.append({'kind': 'seq', 'other': rng.choice([1, 1, 2, 3]), 'k2': rng.choice([1, 2, 3]), 'k1': rng.choice([2, 4, 6]), 'steps': rng.randint(1, 7 if thorough else 4),
                       'n_rec': n_rec, 'n_k0': rng.choice([2 * n_rec, 2 * n_rec, n_rec + 3, n_rec + 4]), 'seed': rng.randrange(1 << 30)})
+    # coil compression with every way of naming the batch dimensions, on objects where the groups differ
+    for variant in ['batch_other', 'joint_k', 'batch_k2', 'batch_k1', 'batch_other_k1', 'joint_other_k1_k0', 'batch_k1_k0'] * (3 if thorough else 1):
+        cases.append({'kind': 'seq', 'other': rng.choice([2, 3]), 'k2': rng.choice([2, 3]), 'k1': rng.choice([2, 4]), 'steps': rng.randint(1, 3), 'n_rec': 4,
+                      'n_k0': 8, 'first_op': 'compress', 'variant': variant, 'seed': rng.randrange(1 << 30)})
     return cases
 
 
@@ -103,6 +107,8 @@ def run(case, drv) -> Outcome:
         if not value_changed:
             choices += ['remove_os', 'compress']
         op = rng.choice(choices)
+        if case.get('first_op') and not log:
+            op = case['first_op']
         before = state(kd)
         src = kd
         if op in ('split_k1', 'split_k2'):
@@ -159,15 +165,30 @@ def run(case, drv) -> Outcome:
                 if list(new.traj.kx.shape[-1:]) not in ([n_new], [1]) or int(new.header.acq_info.number_of_samples.flatten()[0]) != n_new:
                     viol = viol or v('remove_os-shapes', 'trajectory / header sample counts do not match the cropped data')
         else:
-            variant = rng.choice(['default', 'default', 'batch_other', 'joint_k'])
-            kwargs = {'default': {}, 'batch_other': {'batch_dims': (0,)}, 'joint_k': {'joint_dims': (-3, -2, -1)}}[variant]
+            variant = rng.choice(['default', 'default', 'batch_other', 'joint_k', 'batch_k2', 'batch_k1', 'batch_other_k1', 'joint_other_k1_k0', 'batch_k1_k0'])
+            if case.get('variant') and len(log) == 0:
+                variant = case['variant']
+            kwargs = {'default': {}, 'batch_other': {'batch_dims': (0,)}, 'joint_k': {'joint_dims': (-3, -2, -1)}, 'batch_k2': {'batch_dims': (2,)},
+                      'batch_k1': {'batch_dims': (-2,)}, 'batch_other_k1': {'batch_dims': (0, 3)}, 'joint_other_k1_k0': {'joint_dims': (0, -1, -2)},
+                      'batch_k1_k0': {'batch_dims': (-2, -1)}}[variant]
+            # the dimensions (of other, coils, k2, k1, k0) whose entries get a compression matrix of their own
+            bdims = {'default': [], 'batch_other': [0], 'joint_k': [0], 'batch_k2': [2], 'batch_k1': [3], 'batch_other_k1': [0, 3],
+                     'joint_other_k1_k0': [2], 'batch_k1_k0': [3, 4]}[variant]
             log.append(f'compress_coils(2, {variant})')
+            # generic coil data (the identity-carrying data have rank 2 over the coils): every (other, k2, k1) entry gets its own
+            # coil weighting so that the dominant coil subspace differs from group to group
+            gen = torch.Generator().manual_seed(case['seed'] % (2 ** 31))
+            prof = 0.2 + 3 * torch.rand((o, c, k2, k1, 1), generator=gen)
+            noise = torch.randn(kd.data.shape, generator=gen) + 1j * torch.randn(kd.data.shape, generator=gen)
+            kd = type(kd)(header=kd.header, data=(kd.data + prof * noise).to(kd.data.dtype), traj=kd.traj)
+            src, before = kd, state(kd)
             st, new = call(lambda: kd.compress_coils(2, **kwargs))
             value_changed = True
             if st == 'ok':
                 # per group of samples that share one compression matrix (everything, or one `other` entry): the new coil data are
                 # M applied to the old ones with orthonormal rows M, and M spans the dominant subspace of the (coil-mean-removed) data
-                groups = [slice(None)] if variant == 'default' else [slice(g, g + 1) for g in range(kd.data.shape[0])]
+                groups = [tuple(slice(g[bdims.index(d)], g[bdims.index(d)] + 1) if d in bdims else slice(None) for d in range(5))
+                          for g in itertools.product(*[range(kd.data.shape[d]) for d in bdims])]
                 for gsl in groups:
                     D = kd.data[gsl].permute(0, 2, 3, 4, 1).reshape(-1, c).to(torch.complex128)
                     Y = new.data[gsl].permute(0, 2, 3, 4, 1).reshape(-1, 2).to(torch.complex128)
